@@ -176,7 +176,11 @@ def elements(F, res, pol):
         else:
             t = canon(cfield(rk, 'table')) if rk[0] == 'ctor' and rk[2] == 'Active' else None
             off = cfield(rk, 'offset') if rk[0] == 'ctor' and rk[2] == 'Active' else None
-            goodk = t is not None and t[0] == 'id' and t[1] == 'table' and 'kind.Active.table_index' in show(t[2]) \
+            # the table index of the segment; an absent index (MVP encoding) is table 0, spelt as a default or as a literal 0
+            none_idx = any(show(k).endswith('kind.Active.table_index') and isinstance(v, tuple) and v and v[0] == 'ctor' and v[2] == 'None'
+                           for k, v in w.assumptions)
+            goodk = t is not None and t[0] == 'id' and t[1] == 'table' and \
+                ('kind.Active.table_index' in show(t[2]) or (none_idx and t[2][0] == 'lit' and t[2][1] == 0)) \
                 and off is not None and is_eval_of(off, 'elem(section)!.kind.Active.offset_expr')
             ins = [e for e in w.trace if e['kind'] == 'call' and e['callee'].endswith('HashSet::insert')]
             if not (len(ins) == 1 and 'elem_segments' in show(ins[0]['args'][0]) and ins[0]['args'][1] == cfield(rec, 'id')):
